@@ -399,6 +399,8 @@ def shards(tier, seed):
     for hname in ("det3", "state3", "seq", "custom3", "noisy3", "mseed3", "rtimes3n", "collide", "enflag", "enstruct", "wdfile", "rtimes2s"):
         out.append({"part": "free", "h": hname, "seed": seed, "tier": tier})
     out.append({"part": "calib", "seed": seed, "tier": tier})
+    for mode in ("product", "custom", "sequential"):
+        out.append({"part": "legacy", "mode": mode, "seed": seed, "tier": tier})
     for name in BFE:
         out.append({"part": "bfe", "bfe": name, "k": 2, "bound": 1 if tier == "quick" else 2, "seed": seed})
     return out
@@ -496,7 +498,105 @@ def run_shard(shard):
         return run_free(shard)
     if shard["part"] == "calib":
         return run_calib(shard)
+    if shard["part"] == "legacy":
+        return run_legacy(shard)
     raise KeyError(shard["part"])
+
+
+# --------------------------------------------------------------------------- legacy entry point (dask.bag)
+
+def legacy_enc(detector, a=0.0, b=0.0):
+    """probe: pixel / photon are injective functions of the run's values"""
+    shape = detector.geometry.shape
+    detector.photon.array = np.full(shape, 1000.0 * float(a) + float(b))
+    detector.pixel.array = np.arange(6, dtype=float).reshape(shape) + 100.0 * float(a) + float(b)
+
+
+def _legacy_once(mode, with_dask, scheduler, nworkers, tmp):
+    import dask
+    import pyxel
+    from pyxel.observation import Observation, ParameterValues
+    from pyxel.outputs import ObservationOutputs
+
+    s = int(os.environ.get("VERIF_SEED", "0") or 0) % 5
+    ka, kb = "pipeline.photon_collection.enc.arguments.a", "pipeline.photon_collection.enc.arguments.b"
+    kw = {}
+    if mode == "custom":
+        fn = os.path.join(tmp, "table.txt")
+        with open(fn, "w") as fh:
+            for a, b in ((3 + s, 10), (1 + s, 20), (2 + s, 30), (5 + s, 40)):      # (not sorted)
+                fh.write(f"{a} {b}\n")
+        params = [ParameterValues(key=ka, values="_"), ParameterValues(key=kb, values="_")]
+        kw = dict(from_file=fn, column_range=(0, 2))
+    else:
+        params = [ParameterValues(key=ka, values=[3 + s, 1 + s, 2 + s]), ParameterValues(key=kb, values=[10, 20])]
+    out = os.path.join(tmp, "out_" + ("par" if with_dask else "seq") + (scheduler or ""))
+    obs = Observation(parameters=params, mode=mode, readout=mk.readout([1.0]), with_dask=with_dask,
+                      outputs=ObservationOutputs(output_folder=out, save_data_to_file=[{"detector.pixel.array": ["npy"]}]), **kw)
+    det = mk.detector("ccd", 2, 3)
+    pipe = mk.pipeline({"photon_collection": [("props.c07_parallel.legacy_enc", "enc", {"a": 0.0, "b": 0.0})]})
+    cfg = {"scheduler": scheduler or "synchronous"}
+    if nworkers:
+        cfg["num_workers"] = nworkers
+    import warnings
+
+    with warnings.catch_warnings():
+        warnings.simplefilter("ignore")
+        with dask.config.set(**cfg):
+            res = pyxel.observation_mode(obs, det, pipe)
+    ds = res.dataset
+    data = {}
+    for name, d in (ds.items() if isinstance(ds, dict) else [("all", ds)]):
+        d = d.load()
+        data[name] = {"dims": [str(x) for x in d["pixel"].dims], "pixel": np.asarray(d["pixel"].values).tolist(),
+                      "coords": {str(c): np.asarray(d.coords[c].values).tolist() for c in d.coords if c not in ("y", "x")}}
+    folder = str(obs.outputs.current_output_folder)
+    files = {f: np.load(os.path.join(folder, f)).tolist() for f in sorted(os.listdir(folder)) if f.endswith(".npy")}
+    return {"data": data, "files": files}
+
+
+def run_legacy(shard):
+    """pyxel.observation_mode(with_dask=True) (runs mapped over a dask bag) versus its own sequential execution: the same
+    data under the same labels and the same files (name -> content), under every scheduler"""
+    mode = shard["mode"]
+    viol, outcomes, n = [], set(), 0
+    tmp = tempfile.mkdtemp(prefix="vp_c07l_")
+    try:
+        try:
+            ref = _legacy_once(mode, False, None, None, tmp)
+        except Exception as e:  # noqa: BLE001
+            return {"violations": [{"key": {"part": "legacy", "mode": mode, "code": "sequential-raised"},
+                                    "what": f"[legacy {mode}] the sequential execution raised {type(e).__name__}: {str(e)[:200]}",
+                                    "case": dict(shard)}],
+                    "counts": {"free_runs": 1}, "sets": {"outcomes": []}, "samples": []}
+        if len(ref["files"]) < 3:
+            raise RuntimeError(f"vacuous legacy harness: {len(ref['files'])} files written by the sequential execution")
+        for sch, nw in (("synchronous", None), ("threads", 2), ("threads", 8), ("processes", 2)):
+            n += 1
+            try:
+                got = _legacy_once(mode, True, sch, nw, tmp)
+            except Exception as e:  # noqa: BLE001
+                viol.append({"key": {"part": "legacy", "mode": mode, "scheduler": sch, "code": "raised"},
+                             "what": f"[legacy {mode}] parallel execution under {sch}({nw}) raised {type(e).__name__}: {str(e)[:200]}",
+                             "case": dict(shard)})
+                break
+            outcomes.add(hashlib.sha1(json.dumps(got, sort_keys=True).encode()).hexdigest()[:12])
+            if got["data"] != ref["data"]:
+                viol.append({"key": {"part": "legacy", "mode": mode, "scheduler": sch, "code": "values"},
+                             "what": f"[legacy {mode}] the parallel result under {sch}({nw}) differs from the sequential one",
+                             "case": dict(shard)})
+                break
+            if got["files"] != ref["files"]:
+                diff = [f for f in sorted(set(got["files"]) | set(ref["files"])) if got["files"].get(f) != ref["files"].get(f)]
+                viol.append({"key": {"part": "legacy", "mode": mode, "scheduler": sch, "code": "files"},
+                             "what": f"[legacy {mode}] files written under {sch}({nw}) differ from those of the sequential "
+                                     f"execution: {diff[:4]} (e.g. {diff[0]}: parallel {got['files'].get(diff[0])} / sequential "
+                                     f"{ref['files'].get(diff[0])})", "case": dict(shard)})
+                break
+    finally:
+        shutil.rmtree(tmp, ignore_errors=True)
+    return {"violations": viol, "counts": {"free_runs": n}, "sets": {"outcomes": [f"legacy/{mode}:{o}" for o in outcomes]},
+            "samples": []}
 
 
 # --------------------------------------------------------------------------- free running
@@ -868,6 +968,8 @@ def replay(case):
             if vs:
                 return vs
         return []
+    if part == "legacy":
+        return run_legacy(case)["violations"]
     if part in ("calib", "calib3"):
         r = run_calib({"seed": case.get("seed", 0), "tier": "thorough" if part == "calib3" else "quick"})
         return r["violations"]
